@@ -1120,7 +1120,8 @@ class Emitter:
             if args:
                 c, _ = self.expr(args[0], env, "usize")
                 if "←" in c:
-                    raise Untranslatable("capacity expression that can panic")
+                    # the capacity is evaluated (it may panic), the value is an empty vector
+                    return "(← (do let cap_ : Nat := %s; pure ([] : Bytes)))" % c, "bytes"
             return "([] : Bytes)", "bytes"
         if len(path) == 1 and path[0] in self.closures:
             _, ps, rt, body = self.closures[path[0]]
